@@ -128,6 +128,15 @@ func (p *authProp) Gen(r *Rand, tier string, idx int) any {
 			ap.Hosts[a].Redirect, ap.Hosts[a].RedirectTo = false, b+1
 			ap.Hosts[a].ChangeAfter, ap.Hosts[a].NewScheme = 0, ""
 			ap.Hosts[b].ChangeAfter, ap.Hosts[b].NewScheme = 0, ""
+		} else {
+			// ... unless the redirecting registry asks for no authentication at all: then no
+			// request to it carries an Authorization header, net/http has nothing to keep, and
+			// whatever secret the other port receives was sent by the library in answer to that
+			// port's own challenge (seeded change C16-14: hosts compared without their ports)
+			ap.Hosts[a].Scheme, ap.Hosts[a].PresetToken, ap.Hosts[a].RealmOn, ap.Hosts[a].NoCred = "none", false, 0, false
+			ap.Hosts[a].Redirect, ap.Hosts[a].RedirectTo = false, b+1
+			ap.Hosts[a].ChangeAfter, ap.Hosts[a].NewScheme = 0, ""
+			ap.Hosts[b].ChangeAfter, ap.Hosts[b].NewScheme = 0, ""
 		}
 	}
 	if r.Chance(0.12) {
